@@ -65,6 +65,7 @@ step touches a pre-existing element; distinct = hash of (pre-population, step pr
             "probe.edge_recreated_on_prepopulated_graph",
             "probe.equal_value_reassigned",
             "probe.conflicting_value_assigned",
+            "probe.conflict_inside_one_statement",
             "probe.step_cancelled_midway",
             "probe.step_after_failed_step",
             "probe.new_nodes_after_existing",
@@ -200,6 +201,9 @@ pub enum Op {
     Edge(NodeX, NodeX),
     AttrNode(NodeX, Vec<(String, Lit)>),
     AttrEdge(NodeX, NodeX, Vec<(String, Lit)>),
+    /// `for lv in [values] { attr (target) name = lv }` — one statement assigning several
+    /// values in turn (target: a node, or an edge when the second field is set)
+    LoopAttr(NodeX, Option<NodeX>, String, Vec<Lit>),
 }
 
 #[derive(Clone, Debug, PartialEq, Eq)]
@@ -238,6 +242,12 @@ fn render_touch(per_pass: bool, old_nodes: u32, ops: &[Op], stamp: u32) -> Strin
                 note(b)
             }
             Op::AttrNode(a, _) => note(a),
+            Op::LoopAttr(a, b, _, _) => {
+                note(a);
+                if let Some(b) = b {
+                    note(b)
+                }
+            }
             _ => {}
         }
     }
@@ -266,6 +276,18 @@ fn render_touch(per_pass: bool, old_nodes: u32, ops: &[Op], stamp: u32) -> Strin
                 b.render(),
                 at.iter().map(|(k, v)| format!("{} = {}", k, v.render())).collect::<Vec<_>>().join(", ")
             )),
+            Op::LoopAttr(a, b, k, vals) => {
+                let target = match b {
+                    Some(b) => format!("{} -> {}", a.render(), b.render()),
+                    None => a.render(),
+                };
+                out.push_str(&format!(
+                    "  for lv in [{}] {{\n    attr ({}) {} = lv\n  }}\n",
+                    vals.iter().map(|v| v.render()).collect::<Vec<_>>().join(", "),
+                    target,
+                    k
+                ));
+            }
         }
     }
     out.push_str("}\n");
@@ -321,12 +343,30 @@ struct Touches {
     edge_recreated: u64,
     equal_reassigned: u64,
     conflicting: u64,
+    conflict_in_one_statement: u64,
     touched_old: bool,
 }
 
 /// Applies a touch program `matches` times. Returns Err(description) at the first conflict.
-fn apply_touch(m: &mut Model, ops: &[Op], stamp: u32, matches: usize, t: &mut Touches) -> Result<(), String> {
+/// Strict mode runs the operations in statement order.  Lazy mode creates the nodes while the
+/// matches are processed, then evaluates every deferred `edge`, then every deferred `attr` —
+/// so an attribute may precede the `edge` statement that creates its edge.
+fn apply_touch(m: &mut Model, ops: &[Op], stamp: u32, matches: usize, lazy: bool, t: &mut Touches) -> Result<(), String> {
+    if !lazy {
+        return apply_phase(m, ops, stamp, matches, 0, &mut Vec::new(), t);
+    }
+    let mut locals: Vec<BTreeMap<usize, u32>> = Vec::new();
+    apply_phase(m, ops, stamp, matches, 1, &mut locals, t)?;
+    apply_phase(m, ops, stamp, matches, 2, &mut locals, t)?;
+    apply_phase(m, ops, stamp, matches, 3, &mut locals, t)
+}
+
+/// phase 0: everything in order; 1: nodes only (records locals); 2: edges only; 3: attributes only
+fn apply_phase(m: &mut Model, ops: &[Op], stamp: u32, matches: usize, phase: u8, saved: &mut Vec<BTreeMap<usize, u32>>, t: &mut Touches) -> Result<(), String> {
     let old_count = m.nodes.len() as u32;
+    if phase >= 2 && saved.len() != matches {
+        return Err("internal: locals not recorded".into());
+    }
     // a program generated against a stale image may name a node that does not exist: its
     // global is then not supplied and execution fails before doing anything
     let in_range = |x: &NodeX| !matches!(x, NodeX::Old(i) if *i >= old_count);
@@ -335,13 +375,16 @@ fn apply_touch(m: &mut Model, ops: &[Op], stamp: u32, matches: usize, t: &mut To
             Op::NewNode(_) => true,
             Op::Edge(a, b) | Op::AttrEdge(a, b, _) => in_range(a) && in_range(b),
             Op::AttrNode(a, _) => in_range(a),
+            Op::LoopAttr(a, b, _, _) => in_range(a) && b.as_ref().map(|b| in_range(b)).unwrap_or(true),
         };
         if !ok {
             return Err("the program refers to a graph node that does not exist (global not supplied)".into());
         }
     }
-    for _ in 0..matches {
-        let mut locals: BTreeMap<usize, u32> = BTreeMap::new();
+    // the range check and the "old" boundary refer to the image before the step
+    let old_count = if phase >= 2 { m.nodes.len() as u32 - saved.iter().map(|l| l.len() as u32).sum::<u32>() } else { old_count };
+    for mi in 0..matches {
+        let mut locals: BTreeMap<usize, u32> = if phase >= 2 { saved[mi].clone() } else { BTreeMap::new() };
         let resolve = |x: &NodeX, locals: &BTreeMap<usize, u32>| -> u32 {
             match x {
                 NodeX::Old(i) => *i,
@@ -349,6 +392,16 @@ fn apply_touch(m: &mut Model, ops: &[Op], stamp: u32, matches: usize, t: &mut To
             }
         };
         for op in ops {
+            let wanted = match (phase, op) {
+                (0, _) => true,
+                (1, Op::NewNode(_)) => true,
+                (2, Op::Edge(..)) => true,
+                (3, Op::AttrNode(..)) | (3, Op::AttrEdge(..)) | (3, Op::LoopAttr(..)) => true,
+                _ => false,
+            };
+            if !wanted {
+                continue;
+            }
             match op {
                 Op::NewNode(i) => {
                     let mut n = MNode::default();
@@ -386,6 +439,34 @@ fn apply_touch(m: &mut Model, ops: &[Op], stamp: u32, matches: usize, t: &mut To
                         }
                     }
                 }
+                Op::LoopAttr(a, b, k, vals) => {
+                    let a = resolve(a, &locals);
+                    let b = b.as_ref().map(|b| resolve(b, &locals));
+                    if a < old_count {
+                        t.touched_old = true;
+                    }
+                    for v in vals {
+                        let v = v.cval();
+                        let target: &mut CAttrs = match b {
+                            None => &mut m.nodes[a as usize].attrs,
+                            Some(b) => match m.nodes[a as usize].edges.get_mut(&b) {
+                                Some(e) => e,
+                                None => return Err(format!("edge {} -> {} does not exist", a, b)),
+                            },
+                        };
+                        match target.get(k) {
+                            None => {
+                                target.insert(k.clone(), v);
+                            }
+                            Some(old) if *old == v => t.equal_reassigned += 1,
+                            Some(old) => {
+                                t.conflicting += 1;
+                                t.conflict_in_one_statement += 1;
+                                return Err(format!("attribute {} holds {:?}, the loop assigns {:?}", k, old, v));
+                            }
+                        }
+                    }
+                }
                 Op::AttrEdge(a, b, at) => {
                     let (a, b) = (resolve(a, &locals), resolve(b, &locals));
                     if a < old_count && b < old_count {
@@ -410,6 +491,9 @@ fn apply_touch(m: &mut Model, ops: &[Op], stamp: u32, matches: usize, t: &mut To
                     }
                 }
             }
+        }
+        if phase == 1 {
+            saved.push(locals);
         }
     }
     Ok(())
@@ -540,6 +624,13 @@ fn gen_touch(r: &mut Rng, m: &Model, stamp: u32, conflict: bool) -> (bool, Vec<O
                     Some(Op::AttrEdge(NodeX::Old(c.0), NodeX::Old(c.1), vec![(c.2, c.3)]))
                 }
             }
+            6 if r.chance(1, 3) => {
+                // one statement assigning the same (equal) value several times
+                pick_node(r, news).map(|a| {
+                    let v = gen_lit(r);
+                    Op::LoopAttr(a, None, format!("l{}_{}", stamp, ops.len()), vec![v.clone(), v.clone(), v])
+                })
+            }
             6 | 7 => {
                 // fresh attribute(s) on some node
                 pick_node(r, news).map(|a| {
@@ -572,7 +663,7 @@ fn gen_touch(r: &mut Rng, m: &Model, stamp: u32, conflict: bool) -> (bool, Vec<O
             let mut all = ops.clone();
             all.push(op.clone());
             let mut base = m.clone();
-            if apply_touch(&mut base, &all, stamp, if per_pass { 2 } else { 1 }, &mut t).is_ok() {
+            if apply_touch(&mut base, &all, stamp, if per_pass { 2 } else { 1 }, false, &mut t).is_ok() {
                 ops.push(op);
                 s2 = base;
             }
@@ -599,14 +690,46 @@ fn gen_touch(r: &mut Rng, m: &Model, stamp: u32, conflict: bool) -> (bool, Vec<O
                 }
             }
         }
-        if cands.is_empty() {
-            // conflict within the step itself, on a new node
-            ops.push(Op::NewNode(news));
-            ops.push(Op::AttrNode(NodeX::New(news), vec![("c".into(), Lit::Int(1))]));
-            ops.push(Op::AttrNode(NodeX::New(news), vec![("c".into(), Lit::Int(2))]));
-        } else {
-            let pos = r.below(ops.len() + 1);
-            ops.insert(pos, r.pick(&cands).clone());
+        // conflicts that live inside ONE statement: a name repeated with different values, a
+        // pre-existing value preceded by a different one, a loop assigning different values
+        let target = pick_node(r, news);
+        match (r.below(5), target) {
+            (0, Some(t)) => {
+                let v = gen_lit(r);
+                let w = different(r, &v);
+                ops.push(Op::AttrNode(t, vec![(format!("d{}", stamp), v), (format!("d{}", stamp), w)]));
+            }
+            (1, Some(t)) => {
+                let v = gen_lit(r);
+                let w = different(r, &v);
+                ops.push(Op::LoopAttr(t, None, format!("d{}", stamp), vec![v.clone(), v, w]));
+            }
+            (2, _) if !cands.is_empty() => {
+                // `attr (n) k = <different>, k = <the existing value>`
+                let c = r.pick(&cands).clone();
+                match c {
+                    Op::AttrNode(t, at) => {
+                        let (k, w) = at[0].clone();
+                        let existing = m.nodes.iter().enumerate().find_map(|(i, n)| if NodeX::Old(i as u32) == t { n.attrs.get(&k).and_then(Lit::from_cval) } else { None });
+                        match existing {
+                            Some(e) => ops.push(Op::AttrNode(t, vec![(k.clone(), w), (k, e)])),
+                            None => ops.push(Op::AttrNode(t, vec![(k, w)])),
+                        }
+                    }
+                    other => ops.push(other),
+                }
+            }
+            _ => {
+                if cands.is_empty() {
+                    // conflict within the step itself, on a new node
+                    ops.push(Op::NewNode(news));
+                    ops.push(Op::AttrNode(NodeX::New(news), vec![("c".into(), Lit::Int(1))]));
+                    ops.push(Op::AttrNode(NodeX::New(news), vec![("c".into(), Lit::Int(2))]));
+                } else {
+                    let pos = r.below(ops.len() + 1);
+                    ops.insert(pos, r.pick(&cands).clone());
+                }
+            }
         }
     }
     (per_pass, ops)
@@ -635,6 +758,7 @@ pub struct Stats {
     pub edge_recreated: u64,
     pub equal_reassigned: u64,
     pub conflicting: u64,
+    pub conflict_in_one_statement: u64,
     pub cancelled_midway: u64,
     pub step_after_failure: u64,
     pub new_after_existing: u64,
@@ -838,10 +962,11 @@ fn run_history_here(h: &History) -> (Stats, Option<Found>) {
                 let mut model = Model::from_cgraph(&before);
                 let mut t = Touches::default();
                 let matches = if *per_pass { passes[step.tree] } else { 1 };
-                let predicted = apply_touch(&mut model, ops, *stamp, matches, &mut t);
+                let predicted = apply_touch(&mut model, ops, *stamp, matches, step.lazy, &mut t);
                 st.edge_recreated += t.edge_recreated;
                 st.equal_reassigned += t.equal_reassigned;
                 st.conflicting += t.conflicting;
+                st.conflict_in_one_statement += t.conflict_in_one_statement;
                 st.touched_old |= t.touched_old;
                 st.exact_checks += 1;
                 match (&predicted, &outcome) {
@@ -937,7 +1062,7 @@ pub fn make_history(ctx: &ShardCtx, i: u64) -> History {
                 let matches = if per_pass { pass_count(&sources[tree]) } else { 1 };
                 let mut t = Touches::default();
                 let mut m2 = m.clone();
-                if apply_touch(&mut m2, &ops, stamp, matches, &mut t).is_ok() {
+                if apply_touch(&mut m2, &ops, stamp, matches, lazy, &mut t).is_ok() {
                     m = m2;
                 }
             }
@@ -1010,6 +1135,7 @@ fn history_json(h: &History) -> J {
                             Op::Edge(a, b) => json!({"op": "edge", "a": nodex_json(a), "b": nodex_json(b)}),
                             Op::AttrNode(a, at) => json!({"op": "nattr", "a": nodex_json(a), "attrs": attrs_json(at)}),
                             Op::AttrEdge(a, b, at) => json!({"op": "eattr", "a": nodex_json(a), "b": nodex_json(b), "attrs": attrs_json(at)}),
+                            Op::LoopAttr(a, b, k, vals) => json!({"op": "loopattr", "a": nodex_json(a), "b": b.as_ref().map(nodex_json), "k": k, "values": vals.iter().map(|v| v.to_json()).collect::<Vec<_>>()}),
                         }).collect::<Vec<_>>(),
                     },
                     "tsg": s.program.text(),
@@ -1056,6 +1182,12 @@ fn history_from_json(j: &J) -> History {
                                             "new" => Op::NewNode(x["i"].as_u64().unwrap_or(0) as usize),
                                             "edge" => Op::Edge(nodex_from(&x["a"]), nodex_from(&x["b"])),
                                             "nattr" => Op::AttrNode(nodex_from(&x["a"]), attrs_from(&x["attrs"])),
+                                            "loopattr" => Op::LoopAttr(
+                                                nodex_from(&x["a"]),
+                                                if x["b"].is_null() { None } else { Some(nodex_from(&x["b"])) },
+                                                x["k"].as_str().unwrap_or("").to_string(),
+                                                x["values"].as_array().map(|a| a.iter().map(Lit::from_json).collect()).unwrap_or_default(),
+                                            ),
                                             _ => Op::AttrEdge(nodex_from(&x["a"]), nodex_from(&x["b"]), attrs_from(&x["attrs"])),
                                         })
                                         .collect()
@@ -1130,6 +1262,7 @@ fn minimise(h: &History, f: Found) -> (History, Found) {
                             if ops.iter().any(|o| match o {
                                 Op::Edge(a, b) | Op::AttrEdge(a, b, _) => uses(a) || uses(b),
                                 Op::AttrNode(a, _) => uses(a),
+                                Op::LoopAttr(a, b, _, _) => uses(a) || b.as_ref().map(|b| uses(b)).unwrap_or(false),
                                 _ => false,
                             }) {
                                 continue;
@@ -1206,6 +1339,7 @@ pub fn run_shard(ctx: &ShardCtx, rep: &mut Report) {
         rep.add("probe.edge_recreated_on_prepopulated_graph", st.edge_recreated);
         rep.add("probe.equal_value_reassigned", st.equal_reassigned);
         rep.add("probe.conflicting_value_assigned", st.conflicting);
+        rep.add("probe.conflict_inside_one_statement", st.conflict_in_one_statement);
         rep.add("probe.step_cancelled_midway", st.cancelled_midway);
         rep.add("probe.step_after_failed_step", st.step_after_failure);
         rep.add("probe.new_nodes_after_existing", st.new_after_existing);
